@@ -86,11 +86,17 @@ def run_case(case, run, variant, reserved=None):
         for s in run["req"]:
             nm = ns.get_name(sigs[s - 1])
             ev.append([int(s), nm if isinstance(nm, str) else repr(nm)])
-        for i in range(n):
-            b = sigs[i].name_override if sigs[i].name_override is not None else ns.name_dict.get(sigs[i])
-            bases[i] = b if isinstance(b, str) else repr(b)
     except Exception as ex:          # the implementation refused / crashed: recorded, not judged
         err = "%s: %s" % (type(ex).__name__, ex)
+    if not err:
+        # what the namespace started from (only classifies a collision / feeds the L2 comparison); the name table is
+        # public state today, if it ever goes away the bases are simply unknown ("")
+        try:
+            for i in range(n):
+                b = sigs[i].name_override if sigs[i].name_override is not None else ns.name_dict.get(sigs[i])
+                bases[i] = b if isinstance(b, str) else ""
+        except Exception:
+            bases = [""] * n
     return {"n": n, "variant": int(variant), "bases": bases, "ev": ev, "err": bool(err), "errtext": err}
 
 
@@ -99,15 +105,19 @@ def _run_chunk(chunk):
     return [run_case(c, r, v, reserved) for (c, r, v) in chunk]
 
 
-def run_jobs(jobs, procs=12):
-    """jobs: list of (case, run, variant); executed on the real code, in parallel worker processes"""
-    if len(jobs) < 4000 or procs <= 1:
-        return _run_chunk(jobs)
+def make_pool(procs=12):
+    """worker processes for run_jobs; create it while the harness is still single-threaded (fork)"""
     import multiprocessing as mp
+    return mp.get_context("fork").Pool(procs)
+
+
+def run_jobs(jobs, pool=None, procs=12):
+    """jobs: list of (case, run, variant); executed on the real code, in parallel worker processes if a pool is given"""
+    if len(jobs) < 4000 or pool is None:
+        return _run_chunk(jobs)
     size = max(500, len(jobs) // (procs * 4))
     chunks = [jobs[i:i + size] for i in range(0, len(jobs), size)]
-    with mp.get_context("fork").Pool(procs) as pool:
-        out = pool.map(_run_chunk, chunks)
+    out = pool.map(_run_chunk, chunks)
     return [t for ch in out for t in ch]
 
 
@@ -251,10 +261,13 @@ def _worker(inp, outp, shim):
             r = convert(top, set(ios), name="top")
             ns = r.ns
             table = []
-            for o in list(ns.sigs.keys()):
-                kind = "memory" if isinstance(o, Memory) else "instance" if isinstance(o, Instance) else "signal"
-                base = o.name_override if getattr(o, "name_override", None) is not None else ns.name_dict.get(o)
-                table.append([str(ns.get_name(o)), base if isinstance(base, str) else repr(base), kind])
+            try:        # every object the namespace named during emission (public state of SignalNamespace today)
+                for o in list(ns.sigs.keys()):
+                    kind = "memory" if isinstance(o, Memory) else "instance" if isinstance(o, Instance) else "signal"
+                    base = o.name_override if getattr(o, "name_override", None) is not None else ns.name_dict.get(o)
+                    table.append([str(ns.get_name(o)), base if isinstance(base, str) else "", kind])
+            except AttributeError:
+                table = []
             rec.update(ok=True, text=r.main_source, table=table)
         except Exception as ex:
             rec["err"] = "%s: %s" % (type(ex).__name__, ex)
@@ -297,7 +310,9 @@ class TextFormatError(Exception):
     pass
 
 
-_DATE = (re.compile(r"^// Date\s+: "), re.compile(r"^//\s+Auto-Generated by LiteX on .*\.$"))
+# the two timestamp lines and the banner line with the git revision of the LiteX checkout (not part of the design:
+# it changes whenever somebody commits to the repository between two runs)
+_DATE = (re.compile(r"^// Date\s+: "), re.compile(r"^//\s+Auto-Generated by LiteX on .*\.$"), re.compile(r"^// LiteX sha1 : "))
 _PORT = re.compile(r"^    (?:input  wire|output wire|output reg |inout  wire) (?:signed)? *(?:\[\d+:0\])? *([^ ,\[\]]+?),?$")
 _NET = re.compile(r"^(?:wire|reg ) (?:signed)? *(?:\[\d+:0\])? *([^ =;\[\]]+?)(?: = [^;]*)?;$")
 _MEM = re.compile(r"^reg \[\d+:0\] ([^ =;\[\]]+?)\[0:\d+\];$")
